@@ -200,10 +200,12 @@ def subst_case(rng, version):
     cands = [t for t in range(n) if derived_from(h, t, ht)]
     prev = None
     for k in range(rng.randint(1, 3)):
-        mt = rng.choice(cands)
-        m = {'name': 'm%d' % k, 'ty': mt, 'abstract': rng.random() < 0.2, 'subst': 'h'}
-        # second level: a member of a member (its type must derive from that member's type)
-        if prev is not None and rng.random() < 0.5 and derived_from(h, mt, prev['ty']):
+        # second level: a member of a member (its type must derive from that member's type); the member in the middle is
+        # abstract in about a third of the chains
+        chain = prev is not None and rng.random() < 0.6
+        mt = rng.choice([t for t in cands if derived_from(h, t, prev['ty'])] or cands) if chain else rng.choice(cands)
+        m = {'name': 'm%d' % k, 'ty': mt, 'abstract': rng.random() < 0.3, 'subst': 'h'}
+        if chain and derived_from(h, mt, prev['ty']):
             m['subst'] = prev['name']
             prev['block'] = ''      # an intermediate head that blocks substitution is a corner we do not judge
         elems.append(m)
